@@ -176,24 +176,28 @@ def messages(tier, seed):
             out.append((f'{c["label"]}|{variant}', text, TJ.to_text(c['ro'])))
     # every class once more with IDs that contain commas, dots, blanks, quotes (the short-ID idiom of __repr__ must not
     # leak into what a message exposes or prints)
-    ids = ['OM_4.15529413,4.15529413.1', 'OM_4.15529413,4.15529413.2', 'a,b,c', "O'NEILL, x", ' padded ', 'x,']
-    ids[2] = 'ENPS;P_NEWSROOM\\W\\F_RUNDOWNS\\R_2021-03-04 0600 BULLETIN;' + 'A1B2C3D4-' * 12 + 'long'      # longer than a terminal line and than any 128-character field limit
-    ids[3] = 'ENPS;P_NEWSROOM\\W\\F_RUNDOWNS\\R_2021-03-04 0600 BULLETIN;' + 'A1B2C3D4-' * 12 + 'long2'
-    A, Bb, C, Dd = ids[2], ids[3], ids[0], ids[1]
-    sp_ro = TJ.to_text(B.ro_doc([B.story(A, [B.item(A), B.item(Bb), B.item(C)]), B.story(Bb, [B.item(A)]), B.story(C, []), B.story(Dd, [])]))
-    sp = [('StorySend', B.story_send(A, [B.p('x')])), ('StoryAppend', B.story_append([B.story(ids[4], []), B.story(ids[5], [])])),
-          ('StoryDelete', B.story_delete([A, C, Bb])), ('StoryInsert', B.story_insert(Bb, [B.story(ids[4], []), B.story(ids[5], [])])),
-          ('StoryMove', B.story_move([C, A])), ('StoryReplace', B.story_replace(C, [B.story(ids[4], [])])),
-          ('ItemDelete', B.item_delete(A, [Bb, A])), ('ItemInsert', B.item_insert(A, Bb, [B.item(ids[4]), B.item(ids[5])])),
-          ('ItemMoveMultiple', B.item_move_multiple(A, [C, Bb, A])), ('ItemReplace', B.item_replace(A, Bb, [B.item(ids[4])])),
-          ('EAStoryReplace', B.ea('REPLACE', {'storyID': C}, [[B.story(ids[4], [])]])), ('EAItemReplace', B.ea('REPLACE', {'storyID': A, 'itemID': Bb}, [[B.item(ids[4])]])),
-          ('EAStoryDelete', B.ea('DELETE', B.ABSENT, [B.ids('storyID', [A, C])])), ('EAItemDelete', B.ea('DELETE', {'storyID': A}, [B.ids('itemID', [Bb, A])])),
-          ('EAStoryInsert', B.ea('INSERT', {'storyID': Bb}, [[B.story(ids[5], [])]])), ('EAItemInsert', B.ea('INSERT', {'storyID': A, 'itemID': C}, [[B.item(ids[5])]])),
-          ('EAStorySwap', B.ea('SWAP', B.ABSENT, [B.ids('storyID', [A, Bb])])), ('EAItemSwap', B.ea('SWAP', {'storyID': A}, [B.ids('itemID', [A, Bb])])),
-          ('EAStoryMove', B.ea('MOVE', {'storyID': A}, [B.ids('storyID', [C, Bb])])), ('EAItemMove', B.ea('MOVE', {'storyID': A, 'itemID': A}, [B.ids('itemID', [C, Bb])]))]
-    for cls, m in sp:
-        for variant, tree in (('compact', m), ('pretty', pretty(m))):
-            out.append((f'special IDs {cls}|{variant}', TJ.to_text(tree), sp_ro))
+    ids0 = ['OM_4.15529413,4.15529413.1', 'OM_4.15529413,4.15529413.2', 'a,b,c', "O'NEILL, x", ' padded ', 'x,']
+    ids0[2] = 'ENPS;P_NEWSROOM\\W\\F_RUNDOWNS\\R_2021-03-04 0600 BULLETIN;' + 'A1B2C3D4-' * 12 + 'long'      # longer than a terminal line and than any 128-character field limit
+    ids0[3] = 'ENPS;P_NEWSROOM\\W\\F_RUNDOWNS\\R_2021-03-04 0600 BULLETIN;' + 'A1B2C3D4-' * 12 + 'long2'
+    # ... and with IDs that mean something to str.format, %-formatting, f-string re-use, paths and regular expressions
+    id_sets = [ids0, ['{0}', '{guid}', '{3F2504E0-4F89-11D3-9A0C-0305E82C3301}', 'a{b}c}', '{', '}{'],
+               ['%s', '%(id)s', '100%', '%d items', '%%', '%'], ['a\\b', 'C:\\temp\\x', '(a|b)*', '[a-z]+$', '^.$', '\\1']]
+    for ids in id_sets:
+        A, Bb, C, Dd = ids[2], ids[3], ids[0], ids[1]
+        sp_ro = TJ.to_text(B.ro_doc([B.story(A, [B.item(A), B.item(Bb), B.item(C)]), B.story(Bb, [B.item(A)]), B.story(C, []), B.story(Dd, [])]))
+        sp = [('StorySend', B.story_send(A, [B.p('x')])), ('StoryAppend', B.story_append([B.story(ids[4], []), B.story(ids[5], [])])),
+              ('StoryDelete', B.story_delete([A, C, Bb])), ('StoryInsert', B.story_insert(Bb, [B.story(ids[4], []), B.story(ids[5], [])])),
+              ('StoryMove', B.story_move([C, A])), ('StoryReplace', B.story_replace(C, [B.story(ids[4], [])])),
+              ('ItemDelete', B.item_delete(A, [Bb, A])), ('ItemInsert', B.item_insert(A, Bb, [B.item(ids[4]), B.item(ids[5])])),
+              ('ItemMoveMultiple', B.item_move_multiple(A, [C, Bb, A])), ('ItemReplace', B.item_replace(A, Bb, [B.item(ids[4])])),
+              ('EAStoryReplace', B.ea('REPLACE', {'storyID': C}, [[B.story(ids[4], [])]])), ('EAItemReplace', B.ea('REPLACE', {'storyID': A, 'itemID': Bb}, [[B.item(ids[4])]])),
+              ('EAStoryDelete', B.ea('DELETE', B.ABSENT, [B.ids('storyID', [A, C])])), ('EAItemDelete', B.ea('DELETE', {'storyID': A}, [B.ids('itemID', [Bb, A])])),
+              ('EAStoryInsert', B.ea('INSERT', {'storyID': Bb}, [[B.story(ids[5], [])]])), ('EAItemInsert', B.ea('INSERT', {'storyID': A, 'itemID': C}, [[B.item(ids[5])]])),
+              ('EAStorySwap', B.ea('SWAP', B.ABSENT, [B.ids('storyID', [A, Bb])])), ('EAItemSwap', B.ea('SWAP', {'storyID': A}, [B.ids('itemID', [A, Bb])])),
+              ('EAStoryMove', B.ea('MOVE', {'storyID': A}, [B.ids('storyID', [C, Bb])])), ('EAItemMove', B.ea('MOVE', {'storyID': A, 'itemID': A}, [B.ids('itemID', [C, Bb])]))]
+        for cls, m in sp:
+            for variant, tree in (('compact', m), ('pretty', pretty(m))):
+                out.append((f'special IDs {cls}|{variant}', TJ.to_text(tree), sp_ro))
     rng = random.Random(seed * 17 + 9)
     g = gen_hist.Gen(rng)
     state = TJ.canon(g.ro(4))
